@@ -270,6 +270,109 @@ theorem C14_T3_sparsity_gather (a : Activation) (σ : ℚ → ℚ) (f W : Nat) (
   simp only [reduceStage, sparsify, hf, ne_eq, not_false_eq_true, if_true]
   exact entry_reshape_gather f x.length W _ r u hr hu
 
+/-! ### T3 for ACCEPTED configurations: the sparsity factor as the Python `int` of the call
+
+`C14_T3_cdf_fn_eq_layer` / `C14_T3_cdf_fn_no_scaling` assume `1 ≤ f`.  Since fixes 1677739 (`CDF.__init__`)
+and 75478be (`_verify_cdf_params`) the code itself rejects `sparsity_factor < 1` with a `ValueError`
+(before: `ZeroDivisionError`, fixed finding F-C14-a); `layerCallZ` / `cdfFnZ` take the factor as an `Int`
+and model that check.  Below: acceptance implies `1 ≤ f`, so the hypothesis is discharged for every
+configuration either entry point accepts, and the equalities hold for EVERY integer factor. -/
+
+/-- **C14/T3 (rejection).** A sparsity factor below 1 (zero, negative) is a `ValueError` of both entry
+points, whatever the other arguments are. -/
+theorem C14_T3_sparsity_below_one_rejected (a : Activation) (σ : ℚ → ℚ) (red : Reduction) (f : Int) (U : Nat)
+    (scale : List ℚ) (scaling : Option (List (List (List ℚ)))) (kernel : List (List (List ℚ))) (K W : Nat)
+    (x : List ℚ) (hf : f < 1) :
+    layerCallZ a σ red f U scale kernel K W x = .error .valueError ∧
+      cdfFnZ a σ red f U scaling kernel K W x = .error .valueError :=
+  ⟨layerCallZ_lt hf a σ red U scale kernel K W x, cdfFnZ_lt hf a σ red U scaling kernel K W x⟩
+
+/-- **C14/T3 (acceptance ⇒ `1 ≤ sparsity_factor`, layer).** A `CDF` layer that returns an output was
+configured with `sparsity_factor ≥ 1` and `units ≥ 1`, and its output is that of the `Nat`-factor model the
+other theorems speak about. -/
+theorem C14_T3_layer_accepted_sparsity {a : Activation} {σ : ℚ → ℚ} {red : Reduction} {f : Int} {U : Nat}
+    {scale : List ℚ} {kernel : List (List (List ℚ))} {K W : Nat} {x : List ℚ} {out : List (List ℚ)}
+    (h : layerCallZ a σ red f U scale kernel K W x = .ok out) :
+    1 ≤ f ∧ 1 ≤ U ∧ layerCall a σ red f.toNat U scale kernel K W x = .ok out := by
+  by_cases hf : f < 1
+  · rw [layerCallZ_lt hf] at h; cases h
+  · have hf1 : 1 ≤ f := by omega
+    rw [layerCallZ_pos hf1] at h
+    exact ⟨hf1, (layerCall_ok h).2.1, h⟩
+
+/-- **C14/T3 (acceptance ⇒ `1 ≤ sparsity_factor`, function).** -/
+theorem C14_T3_fn_accepted_sparsity {a : Activation} {σ : ℚ → ℚ} {red : Reduction} {f : Int} {U : Nat}
+    {scaling : Option (List (List (List ℚ)))} {loc : List (List (List ℚ))} {K W : Nat} {x : List ℚ}
+    {out : List (List ℚ)} (h : cdfFnZ a σ red f U scaling loc K W x = .ok out) :
+    1 ≤ f ∧ cdfFn a σ red f.toNat U scaling loc K W x = .ok out := by
+  by_cases hf : f < 1
+  · rw [cdfFnZ_lt hf] at h; cases h
+  · have hf1 : 1 ≤ f := by omega
+    rw [cdfFnZ_pos hf1] at h
+    exact ⟨hf1, h⟩
+
+/-- **C14/T3 for every integer sparsity factor.** `C14_T3_cdf_fn_eq_layer` without `1 ≤ f`: the two entry
+points return the same tensor or raise the same error class (below 1: both `ValueError`). -/
+theorem C14_T3_cdf_fn_eq_layer_int (a : Activation) (σ : ℚ → ℚ) (red : Reduction) (f : Int) (U : Nat)
+    (scale : List ℚ) (sc kernel : List (List (List ℚ))) (K W : Nat) (x : List ℚ) (hU : 1 ≤ U)
+    (hsc : ∀ i k j, bget3 sc i k j = bgetR scale i) :
+    cdfFnZ a σ red f U (some sc) kernel K W x = layerCallZ a σ red f U scale kernel K W x := by
+  by_cases hf : f < 1
+  · rw [cdfFnZ_lt hf, layerCallZ_lt hf]
+  · have hf1 : 1 ≤ f := by omega
+    rw [cdfFnZ_pos hf1, layerCallZ_pos hf1]
+    exact C14_T3_cdf_fn_eq_layer a σ red f.toNat U scale sc kernel K W x hU (by omega) hsc
+
+/-- **C14/T3 for every integer sparsity factor,** `scaling_parameters=None`. -/
+theorem C14_T3_cdf_fn_no_scaling_int (a : Activation) (σ : ℚ → ℚ) (red : Reduction) (f : Int) (U : Nat)
+    (kernel : List (List (List ℚ))) (K W : Nat) (x : List ℚ) (hU : 1 ≤ U) :
+    cdfFnZ a σ red f U none kernel K W x = layerCallZ a σ red f U [1] kernel K W x := by
+  by_cases hf : f < 1
+  · rw [cdfFnZ_lt hf, layerCallZ_lt hf]
+  · have hf1 : 1 ≤ f := by omega
+    rw [cdfFnZ_pos hf1, layerCallZ_pos hf1]
+    exact C14_T3_cdf_fn_no_scaling a σ red f.toNat U kernel K W x hU (by omega)
+
+/-- **C14/T3 for accepted configurations (no hypothesis on `units` or the factor).** Whenever the `CDF`
+layer returns `out`, `cdf_fn` on the layer's kernel and a scaling tensor broadcasting to the layer's
+scaling returns the same `out`. -/
+theorem C14_T3_cdf_fn_eq_layer_accepted {a : Activation} {σ : ℚ → ℚ} {red : Reduction} {f : Int} {U : Nat}
+    {scale : List ℚ} {sc kernel : List (List (List ℚ))} {K W : Nat} {x : List ℚ} {out : List (List ℚ)}
+    (h : layerCallZ a σ red f U scale kernel K W x = .ok out)
+    (hsc : ∀ i k j, bget3 sc i k j = bgetR scale i) :
+    cdfFnZ a σ red f U (some sc) kernel K W x = .ok out := by
+  obtain ⟨-, hU, -⟩ := C14_T3_layer_accepted_sparsity h
+  rw [C14_T3_cdf_fn_eq_layer_int a σ red f U scale sc kernel K W x hU hsc, h]
+
+/-- **C14/T3 for accepted configurations,** `scaling_parameters=None` against the layer with scaling 1. -/
+theorem C14_T3_cdf_fn_no_scaling_accepted {a : Activation} {σ : ℚ → ℚ} {red : Reduction} {f : Int} {U : Nat}
+    {kernel : List (List (List ℚ))} {K W : Nat} {x : List ℚ} {out : List (List ℚ)}
+    (h : layerCallZ a σ red f U [1] kernel K W x = .ok out) :
+    cdfFnZ a σ red f U none kernel K W x = .ok out := by
+  obtain ⟨-, hU, -⟩ := C14_T3_layer_accepted_sparsity h
+  rw [C14_T3_cdf_fn_no_scaling_int a σ red f U kernel K W x hU, h]
+
+/-- **C14/T3 (converse direction).** Whenever `cdf_fn` returns `out` for at least one unit, the layer holding
+the same kernel and scaling returns `out` too (`units = 0`: only the layer's constructor objects). -/
+theorem C14_T3_layer_eq_cdf_fn_accepted {a : Activation} {σ : ℚ → ℚ} {red : Reduction} {f : Int} {U : Nat}
+    {scale : List ℚ} {sc kernel : List (List (List ℚ))} {K W : Nat} {x : List ℚ} {out : List (List ℚ)}
+    (h : cdfFnZ a σ red f U (some sc) kernel K W x = .ok out) (hU : 1 ≤ U)
+    (hsc : ∀ i k j, bget3 sc i k j = bgetR scale i) :
+    layerCallZ a σ red f U scale kernel K W x = .ok out := by
+  rw [← C14_T3_cdf_fn_eq_layer_int a σ red f U scale sc kernel K W x hU hsc, h]
+
+/-- **C14/T3 (sparsity gather, accepted configurations).** `C14_T3_sparsity_gather` from the `int` entry
+point: the factor of an accepted layer is a positive integer `≠ 1`. -/
+theorem C14_T3_sparsity_gather_accepted (a : Activation) (σ : ℚ → ℚ) (f : Int) (W : Nat) (scale : List ℚ)
+    (kernel : List (List (List ℚ))) (K : Nat) (x : List ℚ) (out : List (List ℚ)) (hf : f ≠ 1)
+    (h : layerCallZ a σ .none f (f.toNat * W) scale kernel K W x = .ok out) (r u : Nat)
+    (hr : r < x.length / f.toNat) (hu : u < f.toNat * W) :
+    entry out r u = cdfEntry a σ K (fun k =>
+      bgetR scale (r * f.toNat + u / W) *
+        (getR x (r * f.toNat + u / W) - get3 kernel (r * f.toNat + u / W) k (u % W))) := by
+  obtain ⟨hf1, -, h'⟩ := C14_T3_layer_accepted_sparsity h
+  exact C14_T3_sparsity_gather a σ f.toNat W scale kernel K x out (by omega) h' r u hr hu
+
 /-! ## T4 — ParallelCombination, Aggregation, RTL -/
 
 /-- **C14/T4 (ParallelCombination).** Column `c` of the input goes through calibrator `c` and the
@@ -374,6 +477,12 @@ example : layerCall .relu6 id .none 2 2 [2] [[[0]], [[1]], [[1/2]], [[0]]] 1 1 [
     = .ok [[1/3, 1/3], [1/6, 1]] := by decide +kernel
 example : cdfFn .relu6 id .mean 2 2 (some [[[2]]]) [[[0]], [[1]], [[1/2]], [[0]]] 1 1 [1, 2, 1, 4]
     = .ok [[1/4, 2/3]] := by decide +kernel
+/-- sparsity factor 0 / negative: `ValueError` on both paths (before 1677739 / 75478be: `ZeroDivisionError`);
+factor 2 through the `int` entry point: the same numbers as above -/
+example : layerCallZ .relu6 id .mean 0 1 [1] [[[0]]] 1 1 [0] = .error .valueError ∧
+    cdfFnZ .relu6 id .mean (-2) 1 none [[[0]]] 1 1 [0] = .error .valueError := by decide +kernel
+example : layerCallZ .relu6 id .none 2 2 [2] [[[0]], [[1]], [[1/2]], [[0]]] 1 1 [1, 2, 1, 4]
+    = .ok [[1/3, 1/3], [1/6, 1]] := by decide +kernel
 example : aggCall (fun e => rsum e) [[[1, 2], [3, 4]], [], [[5, 6]]] = [some 5, none, some 11] := by decide +kernel
 
 end Tfl.C14
